@@ -24,6 +24,8 @@
 //!   complete <s>                 CommissioningComplete
 //!   rmfab <s> <idx>              RemoveFabric
 //!   revoke <s>                   RevokeCommissioning
+//!   bcw <s> <n>                  write of the Breadcrumb attribute
+//!   gkm <s> <gid>                write of the GroupKeyMap attribute (fabric-scoped, content not modelled)
 //!   tick <secs>                  virtual time passes
 //!   poll                         the 1-second timeout poll of the interaction model runs once
 //!   flush                        the background task persists the resumption cache
@@ -32,6 +34,11 @@
 //!   kvfail <n>                   the n-th next store/remove call fails
 //!   freset                       factory reset
 //!   corrupt <hexbyte>            the persisted resumption blob is overwritten with garbage, then restart
+//!   hs <fab> <node> <rid>        CASE handshake up to Sigma3: a RESERVED session with the CASE mode (real `ReservedSession`)
+//!   hsdone <s>                   its last message is acknowledged: the guard is dropped
+//!   rt <kind> <seed>             TLV round trip (store, load, store) of a persisted structure: fab | nets | res | binfo
+//!   coldreset                    restart, `factory_reset` BEFORE `startup`, start-up
+//!   fabrecover <i>               fabric blob <i> damaged, restart (start-up fails), factory reset, restart
 use std::cell::RefCell;
 use std::collections::{BTreeMap, HashMap};
 use std::num::NonZeroU8;
@@ -57,7 +64,7 @@ use rs_matter::persist::{
 };
 use rs_matter::sc::case::{ResumableSession, ResumableSessions, MAX_RESUMPTION_RECORDS};
 use rs_matter::transport::network::Address;
-use rs_matter::transport::session::{NocCatIds, SessionMode, MAX_SESSIONS};
+use rs_matter::transport::session::{NocCatIds, ReservedSession, SessionMode, MAX_SESSIONS};
 use rs_matter::Matter;
 
 use crate::proto::{Case, Out};
@@ -209,6 +216,9 @@ pub fn make_noc_for<C: Crypto>(crypto: &C, ca: &Ca, ca_id: u64, fid: u64, node: 
 type Nets = SharedNetworks<WifiNetworks<4>>;
 
 pub struct World {
+    /// live `ReservedSession` guards (CASE handshakes in their last leg), by session id. They borrow
+    /// `matter` (lifetime extended, see `matter_ref`): declared first so that they are dropped first.
+    pending: Vec<(u32, ReservedSession<'static>)>,
     matter: Box<Matter<'static>>,
     nets: Box<Nets>,
     kv: Kv,
@@ -373,7 +383,7 @@ pub fn canon_state(matter: &Matter<'_>, nets: &str, kvh: &Kv, cas: &[Ca], noc_se
                         SessionMode::Group { fab_idx, .. } => format!("g{}", fab_idx.get()),
                         SessionMode::PlainText => "t0".into(),
                     };
-                    (s.id(), format!("{}:{}:{}{}", s.id(), m, s.get_peer_node_id().unwrap_or(0), if s.verif_is_expired() { ":x" } else { "" }))
+                    (s.id(), format!("{}:{}:{}{}{}", s.id(), m, s.get_peer_node_id().unwrap_or(0), if s.verif_is_expired() { ":x" } else { "" }, if s.verif_flags().1 { ":r" } else { "" }))
                 })
                 .collect();
             ss.sort();
@@ -381,7 +391,7 @@ pub fn canon_state(matter: &Matter<'_>, nets: &str, kvh: &Kv, cas: &[Ca], noc_se
             let rs = canon_resum(p.resumption);
             let fsafe = match p.failsafe.verif_armed() {
                 None => "idle".to_string(),
-                Some((fab, flags, to, _)) => format!("{}.{}.{}", fab, flags, to),
+                Some((fab, flags, to, _)) => format!("{}.{}.{}{}", fab, flags, to, if p.failsafe.verif_deferred() { ".d" } else { "" }),
             };
             let w = match p.pase.comm_window() {
                 None => "-".to_string(),
@@ -399,6 +409,7 @@ pub fn canon_state(matter: &Matter<'_>, nets: &str, kvh: &Kv, cas: &[Ca], noc_se
 impl World {
     pub fn new(cas: Rc<Vec<Ca>>) -> Self {
         World {
+            pending: Vec::new(),
             matter: new_matter(),
             nets: Box::new(SharedNetworks::new(WifiNetworks::new())),
             kv: Kv::default(),
@@ -425,7 +436,7 @@ impl World {
                         SessionMode::Pase { fab_idx } => ('p', *fab_idx),
                         _ => ('t', 0),
                     };
-                    (s.id(), c, f, s.verif_is_expired(), s.get_peer_node_id().unwrap_or(0))
+                    (s.id(), c, f, s.verif_is_expired() || s.verif_flags().1, s.get_peer_node_id().unwrap_or(0))
                 })
                 .collect();
             sessions.sort();
@@ -440,6 +451,7 @@ impl World {
                 rids,
                 kvlen: self.kv.0.borrow().log.len(),
                 fault_pending: self.kv.0.borrow().fail_in > 0,
+                fault_in: self.kv.0.borrow().fail_in,
             }
         })
     }
@@ -497,7 +509,70 @@ impl World {
         pk
     }
 
+    /// the node with the lifetime the `ReservedSession` guards need. SAFETY: the guards live in
+    /// `self.pending`, which is emptied before `self.matter` is replaced (`restart_from`) and is
+    /// dropped before `self.matter` (field order); the `Matter` sits in a `Box` and does not move.
+    fn matter_ref(&self) -> &'static Matter<'static> {
+        unsafe { &*(self.matter.as_ref() as *const Matter<'static>) }
+    }
+
+    /// a new `Matter` instance with nothing loaded (the process restarted)
+    fn power_cycle(&mut self, map: BTreeMap<u16, Vec<u8>>) {
+        self.pending.clear();
+        {
+            let mut i = self.kv.0.borrow_mut();
+            i.map = map;
+            i.fail_in = 0;
+        }
+        self.matter = new_matter();
+        self.nets = Box::new(SharedNetworks::new(WifiNetworks::new()));
+    }
+
+    /// `Matter::startup` (lib.rs:653) + `InteractionModelState::load_persist` (im.rs:208)
+    fn startup(&mut self) -> String {
+        let r = {
+            let kv = self.matter.kv(self.kv.clone());
+            self.matter.startup(&kv)
+        };
+        let r2: Result<(), Error> = {
+            let mut store = self.kv.clone();
+            let mut buf = vec![0u8; 4096];
+            self.nets.access(|n| {
+                n.reset()?;
+                if let Some(data) = store.load(NETWORKS_KEY, &mut buf)? {
+                    let data = data.to_vec();
+                    n.load(&data)?;
+                }
+                Ok(())
+            })
+        };
+        match (r, r2) {
+            (Ok(()), Ok(())) => "ok".into(),
+            (Err(e), _) => code(&e),
+            (_, Err(e)) => code(&e),
+        }
+    }
+
+    /// lib.rs:621 `Matter::factory_reset` + `InteractionModelState::reset_persist` (im.rs:181)
+    fn factory_reset(&mut self) -> String {
+        let r = {
+            let kv = self.matter.kv(self.kv.clone());
+            self.matter.factory_reset(&kv)
+        };
+        let r2: Result<(), Error> = {
+            let mut store = self.kv.clone();
+            let mut buf = vec![0u8; 1024];
+            self.nets.access(|n| n.reset()).and_then(|_| store.remove(NETWORKS_KEY, &mut buf))
+        };
+        match (r, r2) {
+            (Ok(()), Ok(())) => "ok".into(),
+            (Err(e), _) => code(&e),
+            (_, Err(e)) => code(&e),
+        }
+    }
+
     fn restart_from(&mut self, map: BTreeMap<u16, Vec<u8>>) -> String {
+        self.pending.clear();
         {
             let mut i = self.kv.0.borrow_mut();
             i.map = map;
@@ -539,12 +614,21 @@ impl World {
         }
         let crypto = test_only_crypto();
         // ops that arrive over a session: the IM runs `check_timeouts(Some(exchange))` first (im.rs:758)
-        let sess_ops = ["open", "arm", "csr", "root", "addnoc", "updnoc", "acl", "grp", "label", "net", "rmnet", "complete", "rmfab", "revoke"];
+        let sess_ops = ["open", "arm", "csr", "root", "addnoc", "updnoc", "acl", "grp", "label", "net", "rmnet", "complete", "rmfab", "revoke", "bcw", "gkm"];
         let mut mode: Option<SessionMode> = None;
         let sid = num(1) as u32;
         if sess_ops.contains(&w[0]) {
             if self.sess_mode(sid).is_none() {
                 return "nosess".into();
+            }
+            // a reserved session takes no incoming message (`Session::is_for_rx`)
+            let reserved = self.matter.with_state(|state| {
+                let p = state.verif_parts();
+                let x = p.sessions.iter().find(|s| s.id() == sid).map(|s| s.verif_flags().1).unwrap_or(false);
+                x
+            });
+            if reserved {
+                return "reserved".into();
             }
             if let Err(e) = self.check_timeouts(Some(sid)) {
                 return format!("pre:{}", code(&e));
@@ -773,24 +857,44 @@ impl World {
                                 let mut e = AclEntry::new(None, Privilege::ADMIN, AuthMode::Case);
                                 e.add_subject(val)?;
                                 fabric.acl_add(e)?;
-                                if !p.failsafe.is_armed_for(fi.get()) {
+                                if !p.failsafe.defers_store_for(fi.get()) {
                                     persist.store(fabric)?;
                                 }
                             }
                             "grp" => {
                                 let fabric = p.fabrics.fabric_mut(fi)?;
                                 fabric.groups_mut().add(1, val as u16, "")?;
-                                if !p.failsafe.is_armed_for(fi.get()) {
+                                if !p.failsafe.defers_store_for(fi.get()) {
                                     persist.store(fabric)?;
                                 }
                             }
                             _ => {
                                 let label = format!("L{}", val);
                                 let fabric = p.fabrics.update_label(fi, &label)?;
-                                if !p.failsafe.is_armed_for(fi.get()) {
+                                if !p.failsafe.defers_store_for(fi.get()) {
                                     persist.store(fabric)?;
                                 }
                             }
+                        }
+                        Ok(())
+                    })();
+                    st(r)
+                })
+            }
+            "gkm" => {
+                // grp_key_mgmt.rs:193 `set_group_key_map` (list replace with one entry): a fabric-scoped write
+                // whose content the model does not track
+                let gid = num(2) as u16;
+                let kv = self.matter.kv(self.kv.clone());
+                let mut persist = FabricPersist::new(&kv);
+                self.matter.with_state(|state| {
+                    let p = state.verif_parts();
+                    let Some(fi) = nz(sfab) else { return "UnsupportedAccess".to_string() };
+                    let r: Result<(), Error> = (|| {
+                        let fabric = p.fabrics.fabric_mut(fi)?;
+                        fabric.groups_mut().key_map_replace([rs_matter::fabric::GroupKeyMapping { group_id: gid, group_key_set_id: 1 }].into_iter())?;
+                        if !p.failsafe.defers_store_for(fi.get()) {
+                            persist.store(fabric)?;
                         }
                         Ok(())
                     })();
@@ -822,14 +926,21 @@ impl World {
                     let p = state.verif_parts();
                     let pase_sess_id = matches!(mode, SessionMode::Pase { .. }).then_some(sid);
                     let r: Result<(), Error> = (|| {
-                        let fabric = p.failsafe.disarm(&mode, p.fabrics)?;
+                        // the store first, then disarm / close the window / drop PASE
+                        let fab_idx = p.failsafe.check_disarm(&mode, p.fabrics)?;
+                        persist.store(p.fabrics.fabric(fab_idx)?)?;
+                        self.nets.access(|networks| {
+                            let was_managed = networks.managed()?;
+                            networks.set_managed(true)?;
+                            let result = persist.persist_mut().store(NETWORKS_KEY, |buf| networks.save(buf));
+                            if result.is_err() {
+                                networks.set_managed(was_managed)?;
+                            }
+                            result
+                        })?;
+                        p.failsafe.disarm(&mode, p.fabrics)?;
                         p.pase.close_comm_window(|| {}, |_, _| {})?;
                         p.sessions.remove_pase(pase_sess_id);
-                        persist.store(fabric)?;
-                        self.nets.access(|networks| {
-                            networks.set_managed(true)?;
-                            persist.persist_mut().store(NETWORKS_KEY, |buf| networks.save(buf))
-                        })?;
                         Ok(())
                     })();
                     st(r)
@@ -842,23 +953,23 @@ impl World {
                 let kv = self.matter.kv(self.kv.clone());
                 let mut persist = FabricPersist::new(&kv);
                 self.matter.with_state(|state| {
-                    let removed = {
+                    let present = {
                         let p = state.verif_parts();
-                        if p.fabrics.remove(fi).is_ok() {
-                            let expire_sess_id = (sfab == fi.get()).then_some(sid);
-                            p.sessions.remove_for_fabric(fi, expire_sess_id);
-                            true
-                        } else {
-                            false
-                        }
+                        p.fabrics.get(fi).is_some()
                     };
-                    if removed {
+                    if present {
+                        // the store first (purged resumption cache, then the fabric key) ...
                         if let Err(e) = state.verif_purge_resumption_for_fabric(fi, &kv) {
                             return code(&e);
                         }
                         if let Err(e) = persist.remove(fi) {
                             return code(&e);
                         }
+                        // ... then the fabric table and the sessions
+                        let p = state.verif_parts();
+                        let _ = p.fabrics.remove(fi);
+                        let expire_sess_id = (sfab == fi.get()).then_some(sid);
+                        p.sessions.remove_for_fabric(fi, expire_sess_id);
                         "ok".to_string()
                     } else {
                         "InvalidFabricIndex".to_string()
@@ -885,6 +996,98 @@ impl World {
                     }
                     let p = state.verif_parts();
                     st(p.pase.close_comm_window(|| {}, |_, _| {}))
+                })
+            }
+            "hs" => {
+                // responder.rs:430-482 with the REAL `ReservedSession` guard: reserve, `update` (CASE mode
+                // of the fabric + peer), the resumption record, `complete()`; the guard stays alive until
+                // the final status report is acknowledged (`hsdone`)
+                let fab = num(1) as u8;
+                let node = num(2);
+                let rid = num(3);
+                let Some(fi) = nz(fab) else { return "nofab".to_string() };
+                let present = self.matter.with_state(|state| {
+                    let p = state.verif_parts();
+                    p.fabrics.get(fi).is_some()
+                });
+                if !present {
+                    return "nofab".to_string();
+                }
+                let m = self.matter_ref();
+                match ReservedSession::reserve_now(m, &crypto) {
+                    Ok(mut guard) => {
+                        let id = m.with_state(|state| {
+                            let p = state.verif_parts();
+                            let x = p.sessions.iter().map(|s| s.id()).max().unwrap_or(0);
+                            x
+                        });
+                        // (the unique id of the newest session is the largest one until the counter wraps,
+                        // which no case reaches)
+                        let r = guard.update(1, node, 1, 1, Address::new(), SessionMode::Case { fab_idx: fi, cat_ids: NocCatIds::default() }, None, None, None, None);
+                        if let Err(e) = r {
+                            return code(&e);
+                        }
+                        m.with_state(|state| {
+                            let p = state.verif_parts();
+                            p.resumption.insert_or_update(ResumableSession::verif_new(fi, node, rid16(rid)));
+                        });
+                        guard.complete();
+                        self.pending.push((id, guard));
+                        format!("s{}", id)
+                    }
+                    Err(e) => code(&e),
+                }
+            }
+            "hsdone" => {
+                let id = num(1) as u32;
+                match self.pending.iter().position(|(k, _)| *k == id) {
+                    None => "nohs".into(),
+                    Some(i) => {
+                        let (_, guard) = self.pending.remove(i);
+                        drop(guard);
+                        "ok".into()
+                    }
+                }
+            }
+            "coldreset" => {
+                // the node restarts and the application calls `factory_reset` BEFORE `startup`
+                // (reset button held at power-up); then the start-up
+                let map = self.kv.0.borrow().map.clone();
+                self.power_cycle(map);
+                let r1 = self.factory_reset();
+                let r2 = self.startup();
+                self.kv.0.borrow_mut().log.clear();
+                if r1 == "ok" && r2 == "ok" { "ok".into() } else { format!("reset:{},startup:{}", r1, r2) }
+            }
+            "fabrecover" => {
+                // a damaged fabric blob makes the start-up fail; the factory reset must recover the node
+                let key = FABRIC_KEYS_START + (num(1) as u16).clamp(1, 255);
+                let mut map = self.kv.0.borrow().map.clone();
+                map.insert(key, vec![0xff; 9]);
+                self.power_cycle(map);
+                let r0 = self.startup();
+                let r1 = self.factory_reset();
+                let map = self.kv.0.borrow().map.clone();
+                self.power_cycle(map);
+                let r2 = self.startup();
+                self.kv.0.borrow_mut().log.clear();
+                if r0 != "ok" && r1 == "ok" && r2 == "ok" { "ok".into() } else { format!("startup:{},reset:{},startup:{}", r0, r1, r2) }
+            }
+            "rt" => {
+                // TLV round trip of one persisted structure on objects of its own: store -> load into a
+                // fresh instance -> store again; the two blobs and the two canonical views must be equal
+                match roundtrip(&self.cas, w.get(1).copied().unwrap_or(""), num(2)) {
+                    Ok(()) => "ok".into(),
+                    Err(e) => e,
+                }
+            }
+            "bcw" => {
+                // gen_comm.rs:282 `set_breadcrumb`
+                let v = num(2);
+                self.matter.with_state(|state| {
+                    let p = state.verif_parts();
+                    p.failsafe.set_breadcrumb(v);
+                    "ok".to_string()
                 })
             }
             "tick" => {
@@ -963,6 +1166,167 @@ impl World {
     }
 }
 
+/// `rt <kind> <seed>`: values within the capacity limits (boundary sizes included) from the seed
+fn roundtrip(cas: &Rc<Vec<Ca>>, kind: &str, seed: u64) -> Result<(), String> {
+    let mut r = crate::rng::Rng::new(seed ^ 0x5eed_7137);
+    let mut buf = vec![0u8; 8192];
+    let hexs = |b: &[u8]| crate::proto::hex(b);
+    match kind {
+        "fab" => {
+            // a fabric made by the real commissioning path, then filled up to its capacities
+            let mut w = World::new(cas.clone());
+            let ca = r.range(1, 3);
+            let steps = vec![
+                "boot".to_string(),
+                "pase".to_string(),
+                "arm 0 60".to_string(),
+                "csr 0 0".to_string(),
+                format!("root 0 {}", ca),
+                format!("addnoc 0 {} {} {} {} {}", ca, r.range(1, 0xffff_ffff), r.range(1, 0xffff_ffff_ffff), r.range(1, 0xffff_fffe_ffff_ffff), r.range(1, 60000)),
+            ];
+            for st in &steps {
+                let out = w.exec(st);
+                if !(out.starts_with("ok") || out.starts_with('s')) {
+                    return Err(format!("rt-setup:{}:{}", st.split(' ').next().unwrap_or(""), out));
+                }
+            }
+            let n_acl = *r.pick(&[0u64, 1, 2, 3, 3]);
+            for i in 0..n_acl {
+                let _ = w.exec(&format!("acl 0 {}", if r.chance(1, 3) { 0xffff_fffd_0000_0001u64 + i } else { r.range(1, 0xffff_ffef_ffff_ffff) }));
+            }
+            let n_grp = *r.pick(&[0u64, 1, 4, 4]);
+            for i in 0..n_grp {
+                let _ = w.exec(&format!("grp 0 {}", if i == 0 { 65527 } else { r.range(1, 65000) }));
+            }
+            let label_len = *r.pick(&[0usize, 1, 31, 32]);
+            let label: String = (0..label_len).map(|i| (b'a' + (i % 26) as u8) as char).collect();
+            let fi = NonZeroU8::new(1).unwrap();
+            let kv = w.matter.kv(w.kv.clone());
+            let mut persist = FabricPersist::new(&kv);
+            let stored: Result<(), Error> = w.matter.with_state(|state| {
+                let p = state.verif_parts();
+                let fabric = p.fabrics.update_label(fi, &label)?;
+                persist.store(fabric)
+            });
+            stored.map_err(|e| format!("rt-store:{}", code(&e)))?;
+            let key = FABRIC_KEYS_START + 1;
+            let w1 = w.kv.0.borrow().map.get(&key).cloned().ok_or("rt-nokey")?;
+            let c1 = w.matter.with_state(|state| canon_fabrics(&w.cas, &w.noc_serial, state.verif_parts().fabrics));
+            // load into a fresh table, store again
+            let mut fresh = Fabrics::new();
+            let mut store = w.kv.clone();
+            fresh.load_persist(&mut store, &mut buf).map_err(|e| format!("rt-load:{}", code(&e)))?;
+            let c2 = canon_fabrics(&w.cas, &w.noc_serial, &fresh);
+            let kv2 = Kv::default();
+            let m2 = new_matter();
+            let kvacc = m2.kv(kv2.clone());
+            let mut persist2 = FabricPersist::new(&kvacc);
+            persist2.store(fresh.get(fi).ok_or("rt-lost")?).map_err(|e| format!("rt-store2:{}", code(&e)))?;
+            let w2 = kv2.0.borrow().map.get(&key).cloned().ok_or("rt-nokey2")?;
+            if c1 != c2 {
+                return Err(format!("fab-view:[{}]!=[{}]", c1, c2));
+            }
+            if w1 != w2 {
+                return Err(format!("fab-bytes:{}!={}", hexs(&w1), hexs(&w2)));
+            }
+            Ok(())
+        }
+        "nets" => {
+            let mut n: WifiNetworks<4> = WifiNetworks::new();
+            let count = *r.pick(&[0u64, 1, 2, 4, 4]);
+            for i in 0..count {
+                let sl = *r.pick(&[1usize, 2, 31, 32]);
+                let pl = *r.pick(&[0usize, 1, 8, 63, 64]);
+                let mut ssid: Vec<u8> = (0..sl).map(|_| r.range(0, 255) as u8).collect();
+                ssid[0] = i as u8; // distinct networks
+                let pass: Vec<u8> = (0..pl).map(|_| r.range(0, 255) as u8).collect();
+                Networks::add_or_update(&mut n, &WirelessCreds::Wifi { ssid: &ssid, pass: &pass }).map_err(|_| "rt-nets-add".to_string())?;
+            }
+            let _ = Networks::set_managed(&mut n, r.chance(1, 2));
+            let l1 = Networks::save(&n, &mut buf).map_err(|e| format!("rt-save:{}", code(&e)))?.ok_or("rt-nosave")?;
+            let w1 = buf[..l1].to_vec();
+            let mut fresh: WifiNetworks<4> = WifiNetworks::new();
+            Networks::load(&mut fresh, &w1).map_err(|e| format!("rt-load:{}", code(&e)))?;
+            let l2 = Networks::save(&fresh, &mut buf).map_err(|e| format!("rt-save2:{}", code(&e)))?.ok_or("rt-nosave2")?;
+            let w2 = buf[..l2].to_vec();
+            let (c1, c2) = (canon_nets(&mut n), canon_nets(&mut fresh));
+            if c1 != c2 {
+                return Err(format!("nets-view:[{}]!=[{}]", c1, c2));
+            }
+            if w1 != w2 {
+                return Err(format!("nets-bytes:{}!={}", hexs(&w1), hexs(&w2)));
+            }
+            Ok(())
+        }
+        "res" => {
+            let mut c = ResumableSessions::new();
+            let count = *r.pick(&[0u64, 1, 7, 15, 15, 16]);
+            for i in 0..count {
+                let fab = NonZeroU8::new(r.range(1, 254) as u8).unwrap();
+                c.insert_or_update(ResumableSession::verif_new(fab, if r.chance(1, 4) { u64::MAX - 0x1000_0000_0000 } else { r.range(1, u64::MAX / 2) } + i, rid16(r.range(0, u64::MAX / 2))));
+            }
+            let kv1 = Kv::default();
+            let mut s1 = kv1.clone();
+            c.store_persist(&mut s1, &mut buf).map_err(|e| format!("rt-store:{}", code(&e)))?;
+            let w1 = kv1.0.borrow().map.get(&CASE_RESUMPTION_KEY).cloned().ok_or("rt-nokey")?;
+            let mut fresh = ResumableSessions::new();
+            fresh.load_persist(&mut s1, &mut buf).map_err(|e| format!("rt-load:{}", code(&e)))?;
+            let kv2 = Kv::default();
+            let mut s2 = kv2.clone();
+            fresh.store_persist(&mut s2, &mut buf).map_err(|e| format!("rt-store2:{}", code(&e)))?;
+            let w2 = kv2.0.borrow().map.get(&CASE_RESUMPTION_KEY).cloned().ok_or("rt-nokey2")?;
+            let (c1, c2) = (canon_resum(&c), canon_resum(&fresh));
+            if c1 != c2 {
+                return Err(format!("res-view:[{}]!=[{}]", c1, c2));
+            }
+            if w1 != w2 {
+                return Err(format!("res-bytes:{}!={}", hexs(&w1), hexs(&w2)));
+            }
+            Ok(())
+        }
+        "binfo" => {
+            use rs_matter::dm::clusters::basic_info::BasicInfoSettings;
+            use rs_matter::persist::Persist;
+            let mut b = BasicInfoSettings::new();
+            let ll = *r.pick(&[0usize, 1, 31, 32]);
+            let label: String = (0..ll).map(|i| (b'A' + (i % 26) as u8) as char).collect();
+            let _ = b.node_label.push_str(&label);
+            if r.chance(1, 2) {
+                b.set_location(*r.pick(&["XX", "DE", "us"]));
+            }
+            b.local_config_disabled = r.chance(1, 2);
+            b.configuration_version = *r.pick(&[1u32, 2, u32::MAX]);
+            let m = new_matter();
+            let kv1 = Kv::default();
+            {
+                let acc = m.kv(kv1.clone());
+                let mut p = Persist::new(&acc);
+                b.store_persist(&mut p).map_err(|e| format!("rt-store:{}", code(&e)))?;
+            }
+            let key = rs_matter::persist::BASIC_INFO_KEY;
+            let w1 = kv1.0.borrow().map.get(&key).cloned().ok_or("rt-nokey")?;
+            let mut fresh = BasicInfoSettings::new();
+            let mut s1 = kv1.clone();
+            fresh.load_persist(&mut s1, &mut buf).map_err(|e| format!("rt-load:{}", code(&e)))?;
+            let kv2 = Kv::default();
+            {
+                let acc = m.kv(kv2.clone());
+                let mut p = Persist::new(&acc);
+                fresh.store_persist(&mut p).map_err(|e| format!("rt-store2:{}", code(&e)))?;
+            }
+            let w2 = kv2.0.borrow().map.get(&key).cloned().ok_or("rt-nokey2")?;
+            if b != fresh {
+                return Err(format!("binfo-view:{:?}!={:?}", b, fresh).replace(' ', ""));
+            }
+            if w1 != w2 {
+                return Err(format!("binfo-bytes:{}!={}", hexs(&w1), hexs(&w2)));
+            }
+            Ok(())
+        }
+        _ => Err("rt-kind".into()),
+    }
+}
+
 pub struct View {
     /// (id, 'c'|'p', fabric index, expired, peer node)
     pub sessions: Vec<(u32, char, u8, bool, u64)>,
@@ -972,6 +1336,8 @@ pub struct View {
     pub rids: Vec<u64>,
     pub kvlen: usize,
     pub fault_pending: bool,
+    /// the n-th next store call fails (0 = none)
+    pub fault_in: u32,
 }
 
 pub fn make_cas() -> Rc<Vec<Ca>> {
